@@ -83,7 +83,7 @@ func checkC01(c *Ctx) {
 	}
 	groups := map[string]int{}
 	for i, sc := range small {
-		if sc.Group != "template" && (i+int(c.Seed))%stride != 0 {
+		if sc.Group != "template" && sc.Group != "interaction" && (i+int(c.Seed))%stride != 0 {
 			continue
 		}
 		src, prog := sc.Src, sc.Prog
